@@ -1,9 +1,14 @@
-// SAT-state: a CoreSMTSolver object in raw storage (no constructor is run) filled from symbolic data, plus the
+// SAT-state: a CoreSMTSolver object in typed zero storage (no constructor is run) filled from symbolic data, plus the
 // representation invariant of the CDCL trail as ASSUMPTIONS.  Shared by C12 (analyze/litRedundant), C01 (analyzeFinal)
 // and C10 (analyze with proof logging).  Everything the kernels read is set here; everything else is zero.
 //
-// Bounds (override with -D):  SS_NV variables, SS_NC clauses of <= SS_ML literals in the clause DB, <= SS_NL decision
-// levels, theory reasons of <= SS_TL literals.
+// Clause memory layout (a restriction on WHERE clauses live, not on which clauses exist): the region holds SS_NV+SS_NX
+// slots of STRIDE words; slot v < SS_NV holds the reason clause of variable v whenever v is implied by a clause, slots
+// SS_NV.. hold further clauses (the conflict clause).  Every slot holds a clause of the DB (sigma satisfies all of them);
+// a slot that should be "absent" is covered by tautological contents.
+//
+// Bounds (override with -D):  SS_NV variables, SS_NV+SS_NX clauses of <= SS_ML literals, <= SS_NL decision levels,
+// theory reasons of <= SS_TL literals.
 #pragma once
 #include "verif.h"
 #include <cstdlib>
@@ -15,9 +20,10 @@
 #ifndef SS_NV
 #define SS_NV 4
 #endif
-#ifndef SS_NC
-#define SS_NC 4
+#ifndef SS_NX
+#define SS_NX 1
 #endif
+#define SS_NC (SS_NV + SS_NX)
 #ifndef SS_ML
 #define SS_ML 3
 #endif
@@ -38,18 +44,18 @@ using namespace opensmt;
 enum { STRIDE = SS_ML + 2,                               // header + literals + extra word
        NEWCL = SS_NV + 2,                                // clauses the kernel may allocate (one theory reason per variable, +2)
        CA_CAP = SS_NC * STRIDE + NEWCL * (SS_TL + 2),
-       RK_UNDEF = SS_NC, RK_FAKE = SS_NC + 1 };
+       K_UNDEF = 0, K_FAKE = 1, K_CLAUSE = 2 };
 
 // ---- raw storage -------------------------------------------------------------------------------------------------
-// typed storage whose constructor/destructor do nothing (a union member is not constructed implicitly)
-union SolverBox { CoreSMTSolver s; SolverBox() {} ~SolverBox() {} };
-union ConfigBox { SMTConfig c; ConfigBox() {} ~ConfigBox() {} };
-static SolverBox solver_box;
-static ConfigBox config_box;
+// typed storage without construction: only declared here, defined in satstate_rt.c (c_include / native_c of every spec)
+}
+extern "C" { extern opensmt::CoreSMTSolver ss_solver_obj; extern opensmt::SMTConfig ss_config_obj; }
+namespace ss {
+static_assert(sizeof(CoreSMTSolver) <= 4096 && sizeof(SMTConfig) <= 4096, "native replay storage in satstate_rt.c too small");
 alignas(16) static unsigned char thandler_mem[64];
 static uint32_t ca_mem[CA_CAP];
-static CoreSMTSolver * const S = &solver_box.s;
-static SMTConfig * const CFG = &config_box.c;
+static CoreSMTSolver * const S = &ss_solver_obj;
+static SMTConfig * const CFG = &ss_config_obj;
 
 // ---- ghost copy of the entry state (the kernels backtrack the trail, the checks refer to the entry state) ------------
 static int g_n;                      // trail size
@@ -59,7 +65,7 @@ static int g_lim[SS_NL];
 static int g_pos[SS_NV];             // trail position of a variable, -1 = unassigned
 static int g_lev[SS_NV];             // level of an assigned variable
 static uint8_t g_val[SS_NV];         // lbool value of the variable: 0 true, 1 false, 2 undef
-static int g_rk[SS_NV];              // reason kind: clause index, RK_UNDEF, RK_FAKE
+static int g_kind[SS_NV];            // reason kind: K_UNDEF (decision/fact), K_FAKE (theory), K_CLAUSE (clause in slot v)
 static int g_csz[SS_NC];
 static int g_clit[SS_NC][SS_ML];
 static bool g_clearnt[SS_NC];
@@ -84,28 +90,40 @@ static inline bool sigma_sat_clause(int k) { bool s = false; for (int j = 0; j <
 extern "C" void ss_vec_capacity(vec<int> * v, int min_cap) {
     VASSERT(v->cap >= min_cap, "harness preallocated enough vec capacity (no realloc in the kernel)");
 }
+// RegionAllocator<uint32_t>::alloc(int): bump allocation inside the preallocated region; growth (xrealloc) and the
+// out-of-memory exception are outside the model
+extern "C" uint32_t ss_region_alloc(RegionAllocator<uint32_t> * ra, int size) {
+    uint32_t prev = ra->sz;
+    VASSERT(size > 0 && prev + (uint32_t)size <= ra->cap, "harness preallocated enough clause memory (no realloc in the kernel)");
+    ra->sz = prev + (uint32_t)size;
+    return prev;
+}
 // the only virtual call in the kernels: attachClause (watch lists do not influence the learnt clause)
 extern "C" void ss_virtual(CoreSMTSolver *, CRef) {}
 #define SS_V1 (void *)&ss_virtual,
 #define SS_V8 SS_V1 SS_V1 SS_V1 SS_V1 SS_V1 SS_V1 SS_V1 SS_V1
 static void * fake_vtable[32] = {SS_V8 SS_V8 SS_V8 SS_V8};
 
-template<class T> static void prealloc(vec<T> & v, int cap, int size) {
-    v.data = (T *)malloc(sizeof(T) * (cap > 0 ? cap : 1));
-    v.cap = cap;
-    v.sz = size;
-}
+// vec storage: typed static buffers (CBMC handles typed objects far better than malloc'ed byte arrays); the kernels
+// never free or grow them (vec::capacity is stubbed, vec<Lit>::~vec of the local theory-reason vector is a no-op)
+template<class T> static void prealloc(vec<T> & v, T * buf, int cap, int size) { v.data = buf; v.cap = cap; v.sz = size; }
+static Lit buf_trail[SS_NV], buf_toclear[2 * SS_NV + 2], buf_stack[SS_NV + 1], buf_out[SS_NV + 2], buf_r[NEWCL][SS_TL];
+static int buf_lim[SS_NL];
+static VarData buf_vardata[SS_NV];
+static lbool buf_assigns[SS_NV];
+static char buf_seen[SS_NV];
+static CRef buf_cleanup[NEWCL], buf_learnts[NEWCL], buf_tmp_reas[NEWCL];
 
 // THandler::getReason(p, r): r[0] = p, the other literals are false and EARLIER on the entry trail, and the clause is
 // a valid theory lemma, i.e. sigma (any theory-consistent total assignment) satisfies it.  Arbitrary otherwise.
 extern "C" void ss_getReason(THandler *, Lit p, vec<Lit> & r) {
     int v = var(p);
-    bool ok = p.x >= 0 && p.x < 2 * SS_NV && g_pos[v] >= 0 && g_trail[g_pos[v]] == p.x && g_rk[v] == RK_FAKE && g_nth < SS_NV + 2;
-    if (!ok) { g_bad_getreason = true; prealloc(r, 1, 1); r[0] = p; return; }
+    bool ok = p.x >= 0 && p.x < 2 * SS_NV && g_pos[v] >= 0 && g_trail[g_pos[v]] == p.x && g_kind[v] == K_FAKE && g_nth < SS_NV + 2;
+    if (!ok) { g_bad_getreason = true; prealloc(r, buf_r[0], 1, 1); r[0] = p; return; }
     int i = g_pos[v];
     int m = nondet_u8();
     VASSUME(m >= 1 && m <= SS_TL);
-    prealloc(r, SS_TL, m);
+    prealloc(r, buf_r[g_nth], SS_TL, m);
     r[0] = p;
     bool sat = sig(p.x);
     g_thlit[g_nth][0] = p.x;
@@ -132,7 +150,11 @@ static void build_state(int min_level) {
     g_n = nondet_u8(); VASSUME(g_n >= 0 && g_n <= SS_NV);
     for (int v = 0; v < SS_NV; v++) { g_pos[v] = -1; g_val[v] = 2; g_lev[v] = 0; }
     for (int i = 0; i < SS_NV; i++) {
+#ifdef SS_CANON
+        int l = 2 * i + (nondet_u8() & 1);   // variables are numbered in trail order (a renaming of the variables)
+#else
         int l = nondet_u8(); VASSUME(lit_ok(l));
+#endif
         g_trail[i] = l;
         if (i < g_n) { int v = lvar(l); VASSUME(g_pos[v] == -1); g_pos[v] = i; g_val[v] = (uint8_t)(l & 1); }   // every trail literal is true
     }
@@ -154,30 +176,30 @@ static void build_state(int min_level) {
     for (int i = 0; i < SS_NV; i++) {
         int v = lvar(g_trail[i]);
         if (i >= g_n) continue;
-        int rk = nondet_u8(); VASSUME(rk >= 0 && rk <= RK_FAKE);
-        g_rk[v] = rk;
+        int kind = nondet_u8(); VASSUME(kind >= 0 && kind <= K_CLAUSE);
+        g_kind[v] = kind;
 #ifdef SS_NO_THEORY
-        VASSUME(rk != RK_FAKE);   // case split: no theory-propagated literal on the trail
+        VASSUME(kind != K_FAKE);   // case split: no theory-propagated literal on the trail
 #endif
         int lev = g_lev[v];
         bool first_of_level = false;
         for (int k = 0; k < SS_NL; k++) if (k < g_nl && g_lim[k] == i && k + 1 == lev) first_of_level = true;
         if (lev >= 1) {
             // the first literal of a non-empty level is its decision/assumption (no reason); every other literal is implied
-            if (first_of_level) VASSUME(rk == RK_UNDEF); else VASSUME(rk != RK_UNDEF);
+            if (first_of_level) VASSUME(kind == K_UNDEF); else VASSUME(kind != K_UNDEF);
         }
 #if SS_PROOF
         // proof-logging solver: level-0 literals always carry a UNIT reason clause (logUnitClauseDerivationAtLevelZero,
         // the level-0 branch of theory propagation, learnt units)
-        if (lev == 0) VASSUME(rk < SS_NC && g_csz[rk] == 1);
+        if (lev == 0) VASSUME(kind == K_CLAUSE && g_csz[v] == 1);
 #endif
-        if (rk < SS_NC) {
-            // reason clause: implied literal first, all other literals false and earlier on the trail
-            VASSUME(g_clit[rk][0] == g_trail[i]);
-            for (int j = 1; j < SS_ML; j++) if (j < g_csz[rk]) { int l = g_clit[rk][j]; VASSUME(lit_false_entry(l) && g_pos[lvar(l)] < i); }
+        if (kind == K_CLAUSE) {
+            // reason clause (slot v): implied literal first, all other literals false and earlier on the trail
+            VASSUME(g_clit[v][0] == g_trail[i]);
+            for (int j = 1; j < SS_ML; j++) if (j < g_csz[v]) { int l = g_clit[v][j]; VASSUME(lit_false_entry(l) && g_pos[lvar(l)] < i); }
         }
     }
-    for (int v = 0; v < SS_NV; v++) if (g_pos[v] < 0) { int rk = nondet_u8(); VASSUME(rk <= RK_FAKE); g_rk[v] = rk; g_lev[v] = nondet_u8() & 7; }  // stale vardata of unassigned variables
+    for (int v = 0; v < SS_NV; v++) if (g_pos[v] < 0) { int kind = nondet_u8(); VASSUME(kind <= K_CLAUSE); g_kind[v] = kind; g_lev[v] = nondet_u8() & 7; }  // stale vardata of unassigned variables
     g_nth = 0; g_bad_getreason = false;
 }
 
@@ -185,7 +207,7 @@ static void build_state(int min_level) {
 static void assume_sigma_models_db() {
     g_sigma = nondet_u32(); VASSUME(g_sigma < (1u << SS_NV));
     for (int k = 0; k < SS_NC; k++) VASSUME(sigma_sat_clause(k));
-    for (int i = 0; i < SS_NV; i++) if (i < g_n) { int v = lvar(g_trail[i]); if (g_lev[v] == 0 && g_rk[v] >= SS_NC) VASSUME(sig(g_trail[i])); }
+    for (int i = 0; i < SS_NV; i++) if (i < g_n) { int v = lvar(g_trail[i]); if (g_lev[v] == 0 && g_kind[v] != K_CLAUSE) VASSUME(sig(g_trail[i])); }
 }
 
 // write the ghost state into the raw CoreSMTSolver object
@@ -194,26 +216,25 @@ static void materialize() {
     raw[0] = (void *)fake_vtable;     // vptr
     raw[1] = (void *)CFG;             // SMTConfig & config
     raw[2] = (void *)thandler_mem;    // THandler & theory_handler (never dereferenced: all its methods are stubbed)
-    prealloc(S->trail, SS_NV, g_n);
+    prealloc(S->trail, buf_trail, SS_NV, g_n);
     for (int i = 0; i < SS_NV; i++) S->trail[i] = toLit(g_trail[i]);
-    prealloc(S->trail_lim, SS_NL, g_nl);
+    prealloc(S->trail_lim, buf_lim, SS_NL, g_nl);
     for (int k = 0; k < SS_NL; k++) S->trail_lim[k] = g_lim[k];
-    prealloc(S->vardata, SS_NV, SS_NV);
-    prealloc(S->assigns, SS_NV, SS_NV);
-    prealloc(S->seen, SS_NV, SS_NV);
+    prealloc(S->vardata, buf_vardata, SS_NV, SS_NV);
+    prealloc(S->assigns, buf_assigns, SS_NV, SS_NV);
+    prealloc(S->seen, buf_seen, SS_NV, SS_NV);
     for (int v = 0; v < SS_NV; v++) {
-        int rk = g_rk[v];
-        S->vardata[v].reason = rk == RK_UNDEF ? CRef_Undef : rk == RK_FAKE ? CRef_Fake : cref_of(rk);
+        int kind = g_kind[v];
+        S->vardata[v].reason = kind == K_UNDEF ? CRef_Undef : kind == K_FAKE ? CRef_Fake : cref_of(v);
         S->vardata[v].level = g_lev[v];
         S->assigns[v] = lbool(g_val[v]);
         S->seen[v] = 0;
     }
-    prealloc(S->analyze_toclear, 2 * SS_NV + 2, 0);
-    prealloc(S->analyze_stack, SS_NV + 1, 0);
-    prealloc(S->cleanup, NEWCL, 0);
-    prealloc(S->learnts, NEWCL, 0);
-    prealloc(S->tmp_reas, NEWCL, 0);
-    prealloc(S->undo_stack, NEWCL, 0);
+    prealloc(S->analyze_toclear, buf_toclear, 2 * SS_NV + 2, 0);
+    prealloc(S->analyze_stack, buf_stack, SS_NV + 1, 0);
+    prealloc(S->cleanup, buf_cleanup, NEWCL, 0);
+    prealloc(S->learnts, buf_learnts, NEWCL, 0);
+    prealloc(S->tmp_reas, buf_tmp_reas, NEWCL, 0);
     // clause allocator: SS_NC slots of STRIDE words, the rest is free space for theory reasons
     S->ca.memory = ca_mem; S->ca.sz = SS_NC * STRIDE; S->ca.cap = CA_CAP; S->ca.wasted_ = 0;
     S->ca.extra_clause_field = nondet_bool();
@@ -223,9 +244,17 @@ static void materialize() {
         c.header.reloced = 0; c.header.glue = nondet_u8() & 7; c.header.size = (unsigned)g_csz[k];
         for (int j = 0; j < SS_ML; j++) c.data[j].lit = toLit(g_clit[k][j]);
     }
+#ifdef SS_CFG_SYMBOLIC
+    // all values of the three SAT options read by the kernels (not reachable through SMTConfig, which hard-codes 0/1/1)
     CFG->sat_learn_up_to_size = nondet_u8() & 3;
     CFG->sat_temporary_learn = nondet_bool();
     CFG->sat_minimize_conflicts = nondet_u8() & 3; VASSUME(CFG->sat_minimize_conflicts <= 2);
+#else
+    // the values SMTConfig::initializeConfig hard-codes; no option changes them
+    CFG->sat_learn_up_to_size = 0;
+    CFG->sat_temporary_learn = 1;
+    CFG->sat_minimize_conflicts = 1;
+#endif
 }
 
 static inline bool seen_clear() { bool z = true; for (int v = 0; v < SS_NV; v++) if (S->seen[v] != 0) z = false; return z; }
